@@ -627,7 +627,8 @@ Proof.
   rewrite exec_bind, exec_lift, parse_webp_spec. change (0 + 8) with 8. rewrite Hwebp. cbn [ebind].
   replace (WEBP_MAX_FILE_LEN <? ch_len h + 8) with false
     by (unfold WEBP_MAX_FILE_LEN; change (2 ^ 32 - 2) with 4294967294 in Hmax; lia).
-  rewrite child_L. set (fr1 := [(h, e)]). change (8 + 4) with 12.
+  rewrite child_L. change (@cons (chdr * N) (h, e) (@nil frame)) with (@cons frame (h, e) nil).
+  set (fr1 := @cons frame (h, e) nil). change (8 + 4) with 12.
   assert (Hfe : fits fr1 e) by (apply fits_cons; split; [cbn [snd]; lia | apply fits_nil]).
   assert (He : e <= ilen inp) by lia.
   assert (Hm1 : more inp fr1 e = false) by apply more_top.
